@@ -337,8 +337,8 @@ class SecurityConfiguratorMixin:
         intr['token'] = token
         intr['header'] = header
         intr['safe_methods'] = as_sorted_tuple(safe_methods)
-        intr['check_origin'] = allow_no_origin
-        intr['allow_no_origin'] = check_origin
+        intr['check_origin'] = check_origin
+        intr['allow_no_origin'] = allow_no_origin
         intr['callback'] = callback
 
         self.action(
